@@ -1,6 +1,7 @@
 package main
 
 import (
+	"sort"
 	"fmt"
 	"go/token"
 	"go/types"
@@ -766,7 +767,41 @@ func (x *Exec) checkCallsClauses(st *State, key string, fc *FuncContract, c *ssa
 	}
 	short := shortKey(key)
 	var vars map[string]*Val
-	for _, cr := range x.fc.Calls {
+	if x.callSeen == nil {
+		// call sites of each callee in source order: "callee@N" names the N-th of them
+		x.callSeen = map[string]int{}
+		x.callSites = map[string][]token.Pos{}
+		for _, b := range x.fn.Blocks {
+			for _, in := range b.Instrs {
+				if ci, ok := in.(ssa.CallInstruction); ok {
+					k := x.calleeKey(ci.Common())
+					x.callSites[k] = append(x.callSites[k], ci.Pos())
+				}
+			}
+		}
+		for k := range x.callSites {
+			ps := x.callSites[k]
+			sort.Slice(ps, func(i, j int) bool { return ps[i] < ps[j] })
+		}
+	}
+	siteNo := 0
+	for i, p := range x.callSites[key] {
+		if p == pos {
+			siteNo = i + 1
+		}
+	}
+	for _, cr0 := range x.fc.Calls {
+		cr := cr0
+		// "callee@N": the clause applies to the N-th call site of that callee only (in execution order of the function body)
+		if i := strings.LastIndex(cr.Callee, "@"); i > 0 {
+			var n int
+			if _, err := fmt.Sscanf(cr.Callee[i+1:], "%d", &n); err == nil {
+				cr.Callee = cr.Callee[:i]
+				if n != siteNo {
+					continue
+				}
+			}
+		}
 		if !(cr.Callee == key || cr.Callee == short || strings.HasSuffix(key, "."+cr.Callee) || (strings.Contains(cr.Callee, "*") && (globKey(cr.Callee, key) || globKey(cr.Callee, short) || globKey("*."+cr.Callee, key)))) {
 			continue
 		}
@@ -817,7 +852,7 @@ func (x *Exec) checkCallsClauses(st *State, key string, fc *FuncContract, c *ssa
 			return fmt.Errorf("%s: calls clause for %s: %v", cr.Where, key, err)
 		}
 		x.oblige(st, "calls", cr.Label, t, pos, cr.Src, cr.Tags)
-		x.matchedCalls[cr.Label+"|"+cr.Callee] = true
+		x.matchedCalls[cr0.Label+"|"+cr0.Callee] = true
 	}
 	return nil
 }
